@@ -81,7 +81,7 @@ def plan(tier):
             "timeout": 600 if tier == "quick" else 2400,
             "require": {"calls": 50000, "hops_judged": 10000, "ticks_in_terminal_phase": 1000, "unstarted_first_ticks": 500,
                         "timeouts_forced": 40, "error_limit_forced": 500, "renewals_refused": 500, "lock_acquisitions": 50000,
-                        "invariant_evaluations": 100000, "thread_schedules": 1000, "thread_outcomes_judged": 1000}}
+                        "invariant_evaluations": 100000, "thread_schedules": 1000, "thread_outcomes_judged": 1000, "status_reads_from_callbacks": 5000, "time_scenarios": 1000}}
 
 
 def run_case(ctx, n):
@@ -108,6 +108,13 @@ def run_case(ctx, n):
     seq = rng.choices(OPS, weights=w, k=L)
     if rng.random() < 0.6:
         seq = [("start",)] + seq
+    if n % 4 == 2:
+        # time scenario: limits configured, sequences made of the time-relevant operations (started or not)
+        ctx.count("time_scenarios")
+        cfg = (cfg[0], cfg[1], cfg[2], rng.choice([1.0, 1.0, None]), rng.choice([5.0, 5.0, None]))
+        topS = [("heartbeat",), ("check_timeouts",), ("advance", 60.0), ("advance", 360.0), ("advance", 3660.0), ("tick", 1), ("start",),
+                ("renew", None, True), ("reset",), ("record_error",)]
+        seq = rng.choices(topS, weights=[3, 4, 2, 4, 3, 2, 1, 1, 1, 1], k=rng.randint(3, 8))
     drive(ctx, n, cfg, seq)
 
 
@@ -143,8 +150,22 @@ def drive(ctx, n, cfg, seq):
 
     M = monitored_class()
     with patched(clock, tmod):
+        holder = {}
+        reads = ctx.rng("reads", n).random() < 0.35      # a third of the cases: the application's handlers read the lifecycle's public getters
+
+        def on_change(o, nw):
+            hops.append((o.value, nw.value))
+            if reads and "t" in holder:
+                ctx.count("status_reads_from_callbacks")
+                tt = holder["t"]
+                tt.get_status(); tt.get_phase(); tt.get_statistics(); tt.is_active(); tt.is_operational(); tt.get_age()
+
+        def on_sen(reason):
+            if reads and "t" in holder:
+                holder["t"].get_status()
         t = M(max_operations=max_ops, max_lifetime_hours=life, idle_timeout_minutes=idle, error_threshold=err_th,
-              allow_renewal=renewal, on_phase_change=lambda o, nw: hops.append((o.value, nw.value)), silent=True)
+              allow_renewal=renewal, on_phase_change=on_change, on_senescence=on_sen, silent=True)
+        holder["t"] = t
         wrapped = wrap_all_locks(t, DetectingLock, "Telomere")
         started_at = None
         last_activity = None
